@@ -151,3 +151,32 @@ def _ifun(ex, name, *args):
         else:
             ts.append(to_term(a))
     return tm.app(name, tuple(ts), INT)
+
+
+@spec('afun')
+def _afun(ex, name, *args):
+    """uninterpreted function returning a real vector (Array Int Real)"""
+    ts = []
+    for a in args:
+        if isinstance(a, Obj):
+            ts.append(a.ref)
+        elif isinstance(a, Arr):
+            ts.append(a.term)
+        else:
+            ts.append(to_term(a))
+    return tm.app(name, tuple(ts), tm.ArraySort(INT, REAL))
+
+
+@spec('arr')
+def _arr(ex, a):
+    """the SMT array term of an array value (whole-array comparisons)"""
+    return a.term if isinstance(a, Arr) else a
+
+
+@spec('ghost')
+def _ghost(ex, name):
+    """ghost state component (e.g. 'pvals': the interface's current parameter vector)"""
+    g = ex.ghost.setdefault('g', {})
+    if name not in g:
+        g[name] = tm.var('ghost_%s0' % name, tm.ArraySort(INT, REAL))
+    return g[name]
